@@ -110,7 +110,8 @@ def _gen_descs(r):
     """1-3 record types; each may evolve (gain fields, occasionally change a field's type)."""
     pool = []
     names = r.sample(["test/a", "test/b", "t/x", "filesystem/entry", "a", "deep/er/name", "select", "from/table",
-                      "order/by/group", "T9/x_y"], r.randint(1, 3))
+                      "order/by/group", "T9/x_y", "sqlite/page", "sqlite3/journal_entry", "SQLiteDatabase/table",
+                      "sqlitex", "pragma/table_info", "index/sqlite_autoindex"], r.randint(1, 3))
     for nm in names:
         types = TYPES if r.chance(50) else PLAIN
         ds = V.gen_descspec(r, nfields=r.randint(1, 5), types=types, name=nm)
@@ -227,6 +228,13 @@ def gen_cases(rng, tier):
         d3 = ["test/cc", [["string", f.lower()], ["string", f.upper()]]]
         if f.lower() != f.upper():
             cases.append({"kind": "hist", "batches": [1, 1000], "ops": [["w", _gen_rec(r, d3)], ["c"]]})
+    # type names SQLite reserves (prefix sqlite_, any case): known finding, one per run keeps the matcher exercised
+    r = rng.fork("reserved")
+    for _ in range(1 if tier != "search" else 0):
+        nm = r.choice(["sqlite_x/y", "SQLite_master", "sqlite_sequence", "SQLITE_stat1/a"])
+        ok = ["test/ok", [["string", "s"]]]
+        cases.append({"kind": "hist", "batches": [1, 1000],
+                      "ops": [["w", _gen_rec(r, ok)], ["w", _gen_rec(r, [nm, [["string", "x"]]])], ["w", _gen_rec(r, ok)], ["c"]]})
     r = rng.fork("quote")
     for _ in range(max(10, n // 4)):
         cases.append({"kind": "quote", "table": _name(r) if r.chance(85) else r.choice(SQL_TYPE_WORDS),
@@ -810,5 +818,10 @@ def _m_type_change(case, obs, failure):
     return any(len(v) > 1 for v in types.values())
 
 
-MATCHERS = {"type_names_equal_up_to_case": _m_table_case, "field_names_equal_up_to_case": _m_field_case,
+def _m_reserved_prefix(case, obs, failure):
+    return (case.get("kind") == "hist" and "OperationalError" in str(failure)
+            and any(n.lower().startswith("sqlite_") for n in _type_names(case)))
+
+
+MATCHERS = {"type_name_reserved_sqlite_prefix": _m_reserved_prefix, "type_names_equal_up_to_case": _m_table_case, "field_names_equal_up_to_case": _m_field_case,
             "field_type_changed_reader_raises": _m_type_change}
